@@ -9,15 +9,15 @@ use alloc::string::ToString;
 use alloc::vec::Vec;
 use alloc::borrow::ToOwned;
 use chrono::NaiveDateTime;
-use chrono::Utc;
 
 use crate::config::SmartCalcConfig;
+use crate::session::Session;
 use crate::types::*;
 use crate::tokinizer::Tokinizer;
 use chrono::NaiveTime;
 use regex::Regex;
 
-pub fn get_atom(config: &SmartCalcConfig, data: &str, group_item: &[Regex]) -> Vec<(usize, usize, Option<TokenType>, String)> {
+pub fn get_atom(config: &SmartCalcConfig, session: &Session, data: &str, group_item: &[Regex]) -> Vec<(usize, usize, Option<TokenType>, String)> {
     let mut atoms = Vec::new();
 
     for re in group_item.iter() {
@@ -31,7 +31,7 @@ pub fn get_atom(config: &SmartCalcConfig, data: &str, group_item: &[Regex]) -> V
                         Ok(seconds) => seconds,
                         Err(_) => continue
                     };
-                    let date = Utc::now().naive_local().date();
+                    let date = session.now().date();
                     let time = match NaiveTime::from_num_seconds_from_midnight_opt(seconds, 0) {
                         Some(time) => time,
                         None => continue
@@ -86,7 +86,7 @@ pub fn get_atom(config: &SmartCalcConfig, data: &str, group_item: &[Regex]) -> V
 
 
 pub fn atom_regex_parser(config: &SmartCalcConfig, tokinizer: &mut Tokinizer, group_item: &[Regex]) {
-    let atoms =  get_atom(config, &tokinizer.data.to_owned(), group_item);
+    let atoms =  get_atom(config, tokinizer.session, &tokinizer.data.to_owned(), group_item);
     for (start, end, token_type, text) in atoms {
         tokinizer.add_token_location(start, end, token_type, text);
     }
